@@ -10,7 +10,7 @@ import itertools
 from lib import vlib
 from lib.vlib import cq_bytes, cq_list, cq_bool, cq_nat, cq_N
 
-SETUP_BUILDS = [{"name": "c14"}]
+SETUP_BUILDS = [{"name": "c14"}, {"name": "twin"}]
 HEADER = "From Coq Require Import List NArith Bool.\nFrom V Require Import Common.Bytes Runner.Stop Runner.StopCorr.\nImport ListNotations.\nOpen Scope N_scope.\n"
 ALPHA = [b"a", b"b", b"c", b" ", b"\xc3", b"\xa9", b"\xe2", b"\x82", b"\xac", b"\xf0", b"\x9f", b"\x98", b"\x80", b"\xff", b"\xed", b"\xa0", b"\xc0", b"\xf4", b"\x90"]
 CHARS = ["a", "b", "c", " ", "é", "€", "😀", "ab", "ba", "\n"]
@@ -159,6 +159,7 @@ def run(ctx):
     binp = ctx.go_build("c14")
     if not binp:
         return
+    twin_check(ctx)
     cases = gen_cases(ctx)
     obs, err = ctx.run_jsonl(binp, cases)
     if obs is None or len(obs) != len(cases):
@@ -180,6 +181,35 @@ def run(ctx):
     for i in bad[:20]:
         ctx.mismatch("Runner/StopCorr.%s" % render(cases[i], obs[i]).split()[0], cases[i], obs[i],
                      ctx.coq_print(HEADER, model_term(cases[i])) if len(ctx.mismatches) < 3 else None)
+
+
+def twin_check(ctx):
+    """llamarunner cannot be executed without a llama.cpp model: its streaming logic is tied to the model through
+    ollamarunner's, by requiring that the statements that make it up are the same in both source files (extracted
+    from the current tree by harness/cmd/twin with go/ast).  A difference is a correspondence break."""
+    import json as _json
+    import subprocess
+    tw = ctx.go_build("twin")
+    if not tw:
+        return
+    p = subprocess.run([tw, vlib.REPO], capture_output=True, text=True, timeout=120)
+    try:
+        o = _json.loads(p.stdout)
+    except Exception:
+        ctx.obligation("twin extraction of the runners' streaming logic", False, p.stdout + p.stderr)
+        ctx.proof_failures.append({"obligation": "twin extraction failed", "detail": (p.stdout + p.stderr)[-2000:]})
+        return
+    a, b = o["ollamarunner"], o["llamarunner"]
+    need = ["tail", "flush", "remove", "limit_cond", "limit_body", "eos_body", "inc_count"]
+    diffs = [k for k in need if not a.get(k) or a.get(k) != b.get(k)]
+    if not (a.get("order_ok") and b.get("order_ok")):
+        diffs.append("order(limit check < numPredicted++ < EOS test < append)")
+    ctx.obligation("llamarunner streaming statements identical to ollamarunner's (%d sections)" % len(need), not diffs, str(diffs))
+    ctx.extra["twin_sections"] = need
+    if diffs:
+        ctx.mismatch("twin: runner/llamarunner streaming logic no longer matches runner/ollamarunner (sections %s); llamarunner cannot be "
+                     "executed here, so no failing input can be produced for it" % diffs,
+                     {"sections": diffs}, {k: b.get(k) for k in diffs}, {k: a.get(k) for k in diffs})
 
 
 def model_term(c):
